@@ -581,6 +581,11 @@ fn c10_matrix_on(sim: &mut Sim, idx: usize, out: &mut Vec<Violation>) {
                 sim.stats.check("c10_matrix_cell");
                 if o.ok || nw.is_some() {
                     viol(out, "C10", "privileged_message_rejected_for_unauthorised_sender", idx, &format!("{}:accepted_from_unauthorised", case.name), format!("{} accepted from {} (designated: {:?}); message {}", case.name, s, case.designated, case.msg));
+                } else if o.err_at.map(|i| i != 0).unwrap_or(false) && o.err_kind != Some(crate::wasm::ErrKind::Harness) {
+                    // the privileged handler itself returned Ok and dispatched messages; the
+                    // transaction only died further down (for reasons of this particular payload)
+                    let at = o.err_at.unwrap();
+                    viol(out, "C10", "privileged_message_rejected_for_unauthorised_sender", idx, &format!("{}:handler_accepted_unauthorised", case.name), format!("{} from {} (designated: {:?}) passed the handler and failed only in a message it dispatched ({:?}: {}); message {}", case.name, s, case.designated, o.calls.get(at).and_then(|c| c.exec().map(|e| (e.0.to_string(), e.1.to_string()))), o.err.clone().unwrap_or_default(), case.msg));
                 }
             }
         }
@@ -636,6 +641,15 @@ fn pause_op(sim: &Sim, on: bool) -> Op {
 fn c11_matrix(sim: &mut Sim, rng: &mut Rng, idx: usize, out: &mut Vec<Violation>) {
     let was_paused = sim.obs.hub.as_ref().and_then(|h| h.params.paused).unwrap_or(false);
     let mut c = child_of(sim);
+    // half of the time the pause falls into an ownership hand-over: a nomination is pending
+    // (the nominee is not the owner yet and must be treated like any other sender)
+    if !was_paused && rng.chance(1, 2) {
+        let owner = c.obs.hub.as_ref().map(|h| h.config.owner.clone()).unwrap_or_default();
+        let o = c.apply(&tx_step(raw("set_owner", &owner, HUB, &json!({"set_owner": {"new_owner_addr": "owner4"}}), vec![])));
+        if o.map(|o| o.ok).unwrap_or(false) {
+            c.stats.probe("c11_matrix_with_pending_nomination");
+        }
+    }
     let before = hub_query_fingerprint(&c.obs);
     if !was_paused {
         let o = c.apply(&tx_step(pause_op(sim, true))).unwrap();
@@ -702,11 +716,22 @@ fn c11_matrix(sim: &mut Sim, rng: &mut Rng, idx: usize, out: &mut Vec<Violation>
     }
     // update_params by a non-owner fails; by the owner succeeds (unless legacy entries remain)
     let owner = c.obs.hub.as_ref().map(|h| h.config.owner.clone()).unwrap_or_default();
-    for s in &senders {
+    let mut senders_up = senders.clone();
+    if let Some(n) = c.obs.hub.as_ref().map(|h| h.new_owner.clone()) {
+        for cand in [n, Some("owner4".to_string())].into_iter().flatten() {
+            if !senders_up.contains(&cand) {
+                senders_up.push(cand);
+            }
+        }
+    }
+    for s in &senders_up {
         let op = hub_update_params(s, None, None, None, None, Some(true), None);
-        let (nw, _) = crate::wasm::run_tx(&c.w, &op.to_tx(), None);
+        let (nw, o) = crate::wasm::run_tx(&c.w, &op.to_tx(), None);
         if (s != &owner) && nw.is_some() {
             viol(out, "C11", "only_owner_updates_params_while_paused", idx, "hub.update_params:accepted_from_non_owner", format!("UpdateParams from {} accepted while paused", s));
+        }
+        if s == &owner && nw.is_none() {
+            viol(out, "C11", "owner_updates_params_while_paused", idx, "hub.update_params:owner_refused_while_paused", format!("the owner's UpdateParams (keeping the pause) was refused while paused: {}", o.err.unwrap_or_default()));
         }
     }
     if c.w.digest() != d0 {
